@@ -235,6 +235,11 @@ class StmtMixin:
                 for t, it in zip(tgt.elts, tuple_items(v)):
                     st = self.store(st, t, it)
                 return st
+            if isinstance(v.t, TOpaque):
+                self.note_assumed("unpacking of an opaque value (unknown components)")
+                for t in tgt.elts:
+                    st = self.store(st, t, fresh(TOpaque("unk"), "unp"))
+                return st
             raise EngineError(f"cannot unpack {v.t}")
         if isinstance(v, Bag):
             st, v = self.bag_to_seq(st, v)
@@ -254,7 +259,10 @@ class StmtMixin:
                 st1, n = self.bag_len(st1, c)
                 tc = n > 0
             else:
-                tc = truth(self.as_value(c))
+                cv = self.as_value(c)
+                if isinstance(cv.t.inner if isinstance(cv.t, TOpt) else cv.t, TOpaque):
+                    self.opq_may_raise(st1, "truth value of a value of unknown type")
+                tc = truth(cv)
             st_t, st_f = st1.assume(tc), st1.assume(z3.Not(tc))
             if self.feasible(st_t):
                 yield from self.exec_block(s.body, st_t)
@@ -595,6 +603,9 @@ class StmtMixin:
         ce = item.context_expr
         # generator context manager defined in the repository?
         gen = self.resolve_contextmanager(ce, st)
+        if gen is not None and gen[0] == "$contract":
+            yield from self.with_contract_cm(s, st, gen, ce)
+            return
         if gen is not None:
             yield from self.with_generator(s, st, gen, ce)
             return
@@ -674,9 +685,56 @@ class StmtMixin:
         decos = [ast.unparse(d) for d in fdef.decorator_list]
         if not any(d.endswith("contextmanager") for d in decos):
             return None
-        if REG.contracts.get(f"{module}:{qual}") is not None and REG.contracts[f"{module}:{qual}"].mode != "inline":
-            return None
+        con = REG.contracts.get(f"{module}:{qual}")
+        if con is not None and con.mode != "inline":
+            return ("$contract", con, fdef, module, cls, f"{module}:{qual}", fr)
         return fdef, module, cls, f"{module}:{qual}", fr
+
+    def with_contract_cm(self, s, st, gen, ce):
+        """`with f(...): body` where the generator context manager f has a contract: entry establishes the
+        `at_yield` clauses (after havocking `modifies`), the body runs, the exit havocs `modifies` again and
+        establishes `ensures` (normal end of the body) or `ensures_on_raise` (the body raised; the exception
+        propagates - these context managers do not swallow)."""
+        _, con, fdef, module, cls, target, fr = gen
+        self.used_contracts.add(con.target)
+        if ce.args or ce.keywords:
+            raise EngineError("contract-based context manager with arguments")
+        for st1, fnv in self.ev(ce.func, st):
+            locs = {}
+            if fnv.bound_self is not None:
+                locs["self"] = fnv.bound_self
+            pre = st1.fork()
+            pre.frames.append(Frame(module, cls, target, fdef, locs))
+            pre.old = None
+            k = self.ordinal("pre", s)
+            for i, r in enumerate(con.requires):
+                self.oblige(st1, f"pre@{target.split(':')[1]}", f"#{k}.{i}", self.spec_goal(r, pre),
+                            descr=f"precondition {r!r} of {target}", node=s)
+                pre.pc.append(self.spec_bool(r, pre))
+            ent = pre.fork()
+            ent.old = pre
+            for lv in con.modifies:
+                ent, _wb = self.havoc_lvalue(ent, lv, {})
+            for cl in con.at_yield:
+                ent.pc.append(self.spec_bool(cl, ent))
+            body_st = ent.fork()
+            body_st.frames.pop()
+            body_st.old = st1.old
+            if s.items[0].optional_vars is not None:
+                body_st = self.store(body_st, s.items[0].optional_vars, NONEV)
+            for o in self.exec_block(s.body, body_st):
+                ex = o.st.fork()
+                ex.frames.append(Frame(module, cls, target, fdef, locs))
+                ex.old = pre
+                for lv in con.modifies:
+                    ex, _wb = self.havoc_lvalue(ex, lv, {})
+                clauses = con.ensures_on_raise if o.kind == "exc" else con.ensures
+                for cl in clauses:
+                    ex.pc.append(self.spec_bool(cl, ex))
+                ex.frames.pop()
+                ex.old = st1.old
+                if self.feasible(ex):
+                    yield Outcome(o.kind, ex, o.val)
 
     def with_generator(self, s, st, gen, ce):
         """with f(...): body  where f is a @contextmanager generator: the generator body is executed around
@@ -734,6 +792,19 @@ class StmtMixin:
 
     def exec_yield_stmt(self, s, st):
         """`yield` inside a context-manager generator: run the with-body here."""
+        if getattr(self, "_standalone_cm", False) and len(st.frames) == 1:
+            # the generator itself is under verification: the with-body is arbitrary code that leaves the tracked
+            # state alone and either completes or raises any exception at the yield
+            if st.ghost.get("$yielded"):
+                raise EngineError("context-manager generator yields twice on a path")
+            back = st.fork()
+            back.ghost["$yielded"] = True
+            for cl in getattr(self, "_cm_at_yield", []):
+                self.oblige(back, "at-yield", f"#{self.ordinal('yield', s)}", self.spec_goal(cl, back),
+                            descr=f"while the with-body runs: {cl!r}", node=s)
+            yield Outcome("ok", back)
+            yield Outcome("exc", back, Exc("$any", msg="raised by the with-body at the yield"))
+            return
         if not self._cm_stack:
             raise EngineError("yield outside a context-manager generator")
         with_stmt, depth = self._cm_stack[-1]
